@@ -6,7 +6,7 @@ CFG = {
     "go_cmd": "c13",
     "stages": ["go:gen", "go:impl", "lean:judge"],
     "theorems": [T + n for n in [
-        "C13_terminates", "C13_subsequence", "C13_endpoints", "C13_tolerance", "C13_tolerance_meaning",
+        "C13_terminates", "C13_terminates_methods", "C13_subsequence", "C13_endpoints", "C13_tolerance", "C13_tolerance_meaning",
         "C13_members_independent", "C13_input_unchanged", "C13_simple_partial",
     ]],
     "trusted_base": [
